@@ -81,6 +81,14 @@ def _scopes(tree: ast.Module):
     return out
 
 
+def _similarity(a: str, b: str) -> float:
+    """similarity of two function bodies as token sequences (difflib's character matcher with its junk heuristic is useless on texts
+    of a few hundred characters)"""
+    import re as _re
+    ta, tb = _re.findall(r'\w+|[^\w\s]', a), _re.findall(r'\w+|[^\w\s]', b)
+    return difflib.SequenceMatcher(None, ta, tb, autojunk=False).ratio()
+
+
 def _body_text(fn: ast.AST, own_name: str) -> str:
     body = [st for st in fn.body if not _is_doc_or_log(st)]
     t = '\n'.join(ast.unparse(st) for st in body)
@@ -120,6 +128,14 @@ def restore_renamed(tree: ast.Module, modname: str, baseline: Optional[Dict[str,
     ref = baseline or baseline_bodies(modname)
     used = set()
     protected = set()
+    # similarity is judged on bodies in which hoisted module constants (`_NULL_TAG`) are back in place as literals
+    simtext = {}
+    try:
+        from .normalize import propagate_module_constants
+        shadow = propagate_module_constants(copy.deepcopy(tree))
+        simtext = {q2: _body_text(f2, f2.name) for q2, f2, _, _ in _scopes(shadow)}
+    except Exception:           # pragma: no cover
+        simtext = {}
     for q in missing:
         want = ref.get(q)
         if want is None:
@@ -136,7 +152,7 @@ def restore_renamed(tree: ast.Module, modname: str, baseline: Optional[Dict[str,
         for nq, fn, cls in new:
             if nq in used:
                 continue
-            r = difflib.SequenceMatcher(None, want, _body_text(fn, fn.name)).ratio()
+            r = _similarity(want, simtext.get(nq) or _body_text(fn, fn.name))
             if parent_fn and any(fn.name == c or c.endswith(fn.name) for c in called_in_parent):
                 r += 0.15          # ... and this candidate is called from there
             if (nq.rsplit('.', 1)[0] if '.' in nq else '') == parent_q:
@@ -1026,7 +1042,7 @@ def restore_cross_module(trees: Dict[str, ast.Module]) -> Dict[str, List[str]]:
                 if m2 == mod:
                     continue
                 for name, fn in fns:
-                    r = difflib.SequenceMatcher(None, want.replace('self.<self-name>', '<self-name>'), _body_text(fn, fn.name)).ratio()
+                    r = _similarity(want.replace('self.<self-name>', '<self-name>'), _body_text(fn, fn.name))
                     if name in mentioned:
                         r += 0.15
                     if r > best_r:
